@@ -352,6 +352,10 @@ def kani_cmd(h, scratch, tdir, playback=False):
     cmd += ["--harness", h.fq, "--exact", "--target-dir", tdir, "--output-format", "regular"]
     if playback:
         cmd += ["-Z", "concrete-playback", "--concrete-playback=print"]
+        if "--no-assertion-reach-checks" not in cmd:
+            # every reachable assertion's reachability check comes back with a full JSON
+            # trace in playback mode (kani-driver ran out of memory at 28 GB on one harness)
+            cmd += ["--no-assertion-reach-checks"]
     else:
         cmd += ["--harness-timeout", "%ds" % h.timeout]
     if h.cbmc:
